@@ -714,7 +714,9 @@ class Table(Spec):
             for j, c in enumerate(r):
                 cells.append(NULL if c is None else c.sym(B, self._nm(name, i, j)))
             rows.append(cells)
-        return DataFrameV(self.headers, rows)
+        df = DataFrameV(self.headers, rows)
+        df.comment_row = self.comment_row
+        return df
 
     def sample(self, rng, name, asg):
         for i, r in enumerate(self.rows):
